@@ -20,7 +20,9 @@ import coqio as C
 import gen_c10 as G
 
 PROP = "C11"
-RULE = ("HISTORY scenarios (one process, one path: write A -> balance / split().pipe -> overwrite with B of the same number of bins but another "
+RULE = ("REUSE cases (spans as None/list/tuple/generator/zip/ndarray x evaluation plans: run twice, gather then reduce, reduce repeatedly, siblings "
+        "branched from one prepared base, copies, iter twice, child then parent x builtin/thread/process-pool map; every evaluation must visit every "
+        "stored pixel exactly once) + HISTORY scenarios (one process, one path: write A -> balance / split().pipe -> overwrite with B of the same number of bins but another "
         "chromosome layout / pixels / bins columns -> same calls, with builtin, thread-pool and a reused process-pool map, reused Cooler object, store=True then "
         "re-balance; each result must equal the dense reference of the data stored now and the same call on a fresh copy) + seeded random symmetric coolers (2..8 bins, 1-3 chromosomes, empty rows, isolated bins, non-zero diagonal) + regression corpus x "
         "option vectors (mode, ignore_diags 0..3, min_nnz 0..3, min_count, mad_max 0..3, blacklist, tol, max_iters, x0) x chunksize in "
@@ -360,6 +362,160 @@ def history(ctx, tmp, rng, pool, thorough):
                           "detail": res}, None)
     return n
 
+# ---------------------------------------------------------------------------------------------------------
+# REUSED OBJECT / INPUT REPRESENTATION cases for the split-apply-combine pipeline: the spans are handed over in
+# every representation (None -> partition() generator, list, tuple, generator, zip, numpy array of pairs) and
+# every datapipe is evaluated more than once and in several ways. EVERY evaluation must visit every stored
+# pixel exactly once (counting pipeline) and give the marginal of the dense matrix.
+SPAN_REPRS = ["none", "list", "tuple", "generator", "zip", "ndarray"]
+REUSE_PLANS = ["run_twice", "gather_then_reduce", "reduce_twice", "siblings", "copy_after_original", "iter_twice",
+               "piped_child_then_parent"]
+REUSE_MAPS = ["builtin", "thread", "pool"]
+
+
+def _rz_init(chunk):
+    return None
+
+
+def _rz_visits(chunk, data, n=0):
+    m = np.zeros((n, n), dtype=np.int64)
+    np.add.at(m, (chunk["pixels"]["bin1_id"], chunk["pixels"]["bin2_id"]), 1)
+    return m
+
+
+def _rz_counts(chunk, data, n=0):
+    m = np.zeros((n, n), dtype=float)
+    np.add.at(m, (chunk["pixels"]["bin1_id"], chunk["pixels"]["bin2_id"]), chunk["pixels"]["count"])
+    return m
+
+
+def _rz_ident(chunk, data):
+    return data
+
+
+def make_spans(kind, nnz, c):
+    L = [(k, min(k + c, nnz)) for k in range(0, nnz, c)]
+    if kind == "none":
+        return None
+    if kind == "list":
+        return list(L)
+    if kind == "tuple":
+        return tuple(L)
+    if kind == "generator":
+        return (x for x in L)
+    if kind == "zip":
+        return zip([a for a, _ in L], [b for _, b in L])
+    return np.array(L, dtype=np.int64).reshape(-1, 2)
+
+
+def run_reuse(case, tmp, pool):
+    """True, or the list of evaluations (label, what) that did not visit every stored pixel exactly once"""
+    import copy
+    from functools import partial
+    from cooler.parallel import split
+    from multiprocess.pool import ThreadPool
+    per, pixels = case["per"], case["pixels"]
+    n = sum(per)
+    nnz = len(pixels)
+    path = tmp / "reuse.cool"
+    clr = G.build_cooler(path, per, pixels)
+    tp = ThreadPool(2)
+    mp = {"builtin": map, "thread": tp.imap, "pool": pool.imap_unordered}[case["map"]]
+    visits_exp = np.zeros((n, n), dtype=np.int64)
+    counts_exp = np.zeros((n, n), dtype=float)
+    for i, j, c in pixels:
+        visits_exp[i, j] += 1
+        counts_exp[i, j] += float(c)
+    fv, fc = partial(_rz_visits, n=n), partial(_rz_counts, n=n)
+    bad = []
+
+    def ok_visits(label, m):
+        if not (isinstance(m, np.ndarray) and m.shape == (n, n) and np.array_equal(m, visits_exp)):
+            bad.append([label, "visits", m.tolist() if isinstance(m, np.ndarray) else repr(m)[:80]])
+
+    def ok_counts(label, m):
+        if not (isinstance(m, np.ndarray) and m.shape == (n, n) and np.array_equal(m, counts_exp)):
+            bad.append([label, "counts", m.tolist() if isinstance(m, np.ndarray) else repr(m)[:80]])
+
+    def total(parts, dtype):
+        acc = np.zeros((n, n), dtype=dtype)
+        for p_ in parts:
+            acc = acc + p_
+        return acc
+
+    def go():
+        sp = make_spans(case["spans"], nnz, case["chunk"])
+        kw = {"chunksize": case["chunk"]} if sp is None else {"spans": sp}
+        base = split(clr, map=mp, **kw).prepare(_rz_init)
+        dp = base.pipe(fv)
+        plan = case["plan"]
+        z = np.zeros((n, n), dtype=np.int64)
+        if plan == "run_twice":
+            ok_visits("run #1", total(list(dp.run()), np.int64))
+            ok_visits("run #2", total(list(dp.run()), np.int64))
+        elif plan == "gather_then_reduce":
+            ok_visits("gather", total(dp.gather(), np.int64))
+            ok_visits("reduce after gather", dp.reduce(add, z))
+        elif plan == "reduce_twice":
+            ok_visits("reduce #1", dp.reduce(add, z))
+            ok_visits("reduce #2", dp.reduce(add, z))
+            ok_visits("reduce #3", dp.reduce(add, z))
+        elif plan == "siblings":
+            ok_visits("sibling 1 (visits)", dp.reduce(add, z))
+            ok_counts("sibling 2 (counts)", base.pipe(fc).reduce(add, np.zeros((n, n))))
+            ok_visits("sibling 3 (visits again)", base.pipe(_rz_ident).pipe(fv).reduce(add, z))
+        elif plan == "copy_after_original":
+            cp = copy.copy(dp)
+            ok_visits("original", dp.reduce(add, z))
+            ok_visits("copy made before", cp.reduce(add, z))
+            ok_visits("copy made after", copy.copy(dp).reduce(add, z))
+        elif plan == "iter_twice":
+            ok_visits("iter #1", total(list(iter(dp)), np.int64))
+            ok_visits("iter #2", total(list(iter(dp)), np.int64))
+        else:
+            child = dp.pipe(_rz_ident)
+            ok_visits("child", child.reduce(add, z))
+            ok_visits("parent after child", dp.reduce(add, z))
+            ok_counts("base branch after both", base.pipe(fc).reduce(add, np.zeros((n, n))))
+        return True
+    try:
+        res = G.with_limit(90.0, go)
+    finally:
+        tp.terminate()
+        if path.exists():
+            os.remove(path)
+    if res is not True:
+        return [["pipeline", "crash/timeout", res]]
+    return True if not bad else bad
+
+
+REUSE_PX = [[0, 0, 3], [0, 1, 4], [0, 2, 2], [0, 3, 5], [0, 4, 1], [1, 2, 6], [1, 3, 2], [1, 4, 3], [2, 3, 4], [2, 4, 2], [3, 4, 7], [4, 4, 1], [1, 1, 2]]
+
+
+def reuse_cases(ctx, tmp, rng, pool, thorough):
+    cases = []
+    for sp in SPAN_REPRS:                       # full cross on one table: nnz = 13, chunk 5 (last chunk partial) and chunk 1
+        for plan in REUSE_PLANS:
+            for m in REUSE_MAPS:
+                if thorough or m == "builtin" or (SPAN_REPRS.index(sp) + REUSE_PLANS.index(plan)) % 3 == REUSE_MAPS.index(m):
+                    cases.append({"reuse": True, "per": [3, 2], "pixels": REUSE_PX, "spans": sp, "chunk": 5, "plan": plan, "map": m})
+    for _ in range(40 if thorough else 8):
+        per = G.random_per(rng)
+        px = G.random_pixels(rng, per)
+        if len(px) < 3:
+            continue
+        if rng.random() < 0.3:
+            px = G.float_counts(rng, px)
+        cases.append({"reuse": True, "per": per, "pixels": px, "spans": rng.choice(SPAN_REPRS),
+                      "chunk": rng.choice([1, 2, 3, len(px) - 1, len(px), len(px) + 1]), "plan": rng.choice(REUSE_PLANS),
+                      "map": rng.choice(REUSE_MAPS)})
+    for case in cases:
+        ctx.case(case, nontrivial=True, kind="reuse:" + case["spans"])
+        res = run_reuse(case, tmp, pool)
+        if res is not True:
+            ctx.fail(case, {"what": "an evaluation of the datapipe did not visit every stored pixel exactly once", "evaluations": res}, None)
+    return len(cases)
+
 
 def _run(ctx, cooler, split, B, pool, pool4, maps, thorough, rng, tmp):
     pmaps = {"pool.map": pool.map, "pool.imap": pool.imap, "pool.imap_unordered": pool.imap_unordered}
@@ -500,6 +656,7 @@ def _run(ctx, cooler, split, B, pool, pool4, maps, thorough, rng, tmp):
 
     # ------------------------------------------------------------ histories in one process on one path
     nhist = history(ctx, tmp, rng, pool, thorough)
+    nreuse = reuse_cases(ctx, tmp, rng, pool, thorough)
 
     # ------------------------------------------------------------ use_lock=True (global multiprocess lock around the HDF5 read)
     lock_cs = cases[4]
@@ -578,10 +735,17 @@ def _run(ctx, cooler, split, B, pool, pool4, maps, thorough, rng, tmp):
                     impl if isinstance(impl, str) else [[str(x) for x in r] for r in impl],
                     [[str(x) for x in r] for r in model])
     ctx.extra["runs"] = {"balance_runs": nruns, "coolers": len(cases), "skipped_float_fragile": skipped,
-                         "cli_runs": ncli, "histories": nhist, "span_lists_compared": len(span_exprs), "pipelines_compared": len(chunk_exprs)}
+                         "cli_runs": ncli, "histories": nhist, "reuse_cases": nreuse, "span_lists_compared": len(span_exprs), "pipelines_compared": len(chunk_exprs)}
 
 
 def replay(ctx, case):
+    if case.get("reuse"):
+        from multiprocess import Pool as _Pool
+        rp = _Pool(2)
+        try:
+            return run_reuse(case, ctx.tmp, rp) is True
+        finally:
+            rp.terminate()
     if "history" in case:
         from multiprocess import Pool as _Pool
         hp = _Pool(2)
